@@ -802,7 +802,16 @@ def run(ctx):
                 "Non-trivial = non-zero draw; distinct by (engine, T, n, zm, masses, z).")
     try:
         os.chdir(work)
-        cases = cases_for(ctx)
+        # corpus first: witnesses of the findings, boundary cases
+        import json
+        from common import CORPUS
+        corpus = []
+        for f in sorted((CORPUS / "C16").glob("*.json")):
+            c = json.loads(f.read_text()).get("replay", {}).get("case")
+            if c is not None:
+                c["kind"] = "corpus:" + f.stem
+                corpus.append(c)
+        cases = corpus + cases_for(ctx)
         seen_variants = {"kin": set(), "rng": set()}
         for k, case in enumerate(cases):
             with_prepare = (k % 3 == 0) or not ctx.quick
